@@ -32,6 +32,14 @@
 // at the head or the tail - and each is enabled or DISABLED (TestPlugin::disable) for the whole program. The leak plugin is
 // installed and enabled all the same, so every verdict, report and blame demand is unchanged; a disabled bystander getting
 // actions is C17's business and only counted here.
+// Detector mode calls (O_DISABLE / O_ENABLE): a script - of a test, or of the code between two tests - may call the public
+// MemoryLeakDetector::disable() / enable() on the detector of a leak plugin (the bracket users put around code that is not to be
+// accounted), balanced or not, with a failing check in between so that enable() is never reached. The property says nothing about
+// blocks allocated inside a test AFTER such a call (they are stamped 'disabled' / 'enabled', not 'checking'): those blocks are
+// "ambiguous" (Block::amb). A verdict is judged unless an ambiguous block of that test is still outstanding at its end and the
+// verdict depends on the count (test passed its checks, no ignore); the final report is judged unless an ambiguous block is
+// live at the end. Every OTHER test is judged in full: the leak plugin's window opens at its pre action whatever an earlier test or
+// the code between tests did to the detector, so a test after one that left the detector disabled is failed for its leaks as usual.
 // Everything the monitor records during a run lives in static arrays / libc malloc, so that the
 // monitor itself allocates nothing through the tracked operators inside a checking period; all
 // judging happens after the run with the detector disabled.
@@ -59,8 +67,8 @@
 // ------------------------------------------------------------------ program representation
 enum { MAX_TESTS = 48, MAX_OPS = 64, MAX_SLOTS = 64, MAX_BLOCKS = 12288, MAX_RUNS = MAX_TESTS * 3, MAX_FAILS = 1024 };
 
-enum Op { O_ALLOC, O_FREE, O_REALLOC, O_REALLOC_FAIL, O_FAIL, O_EXPECT, O_IGNORE, O_CHECK, O_TEMP, O_N };
-static const char* OP_NAME[] = { "alloc", "free", "realloc", "realloc_fail", "fail", "expect", "ignore", "check", "temp" };
+enum Op { O_ALLOC, O_FREE, O_REALLOC, O_REALLOC_FAIL, O_FAIL, O_EXPECT, O_IGNORE, O_CHECK, O_TEMP, O_DISABLE, O_ENABLE, O_N };
+static const char* OP_NAME[] = { "alloc", "free", "realloc", "realloc_fail", "fail", "expect", "ignore", "check", "temp", "detector_disable", "detector_enable" };
 
 enum Kind { K_NEW, K_NEW_LOC, K_NEW_NT, K_NEWA, K_NEWA_LOC, K_NEWA_NT, K_OBJ, K_MALLOC, K_CALLOC, K_STRDUP, K_STRNDUP, K_REALLOC, K_N };
 static const char* KIND_NAME[] = { "new", "new@loc", "new-nothrow", "new[]", "new[]@loc", "new[]-nothrow", "new-Pod@loc", "malloc", "calloc", "strdup", "strndup", "realloc" };
@@ -112,6 +120,8 @@ static std::string describe_program(const Program& P) {
                 case O_EXPECT: snprintf(b, sizeof b, " EXPECT_N_LEAKS%s(%u)", at, o.arg); break;
                 case O_IGNORE: snprintf(b, sizeof b, " IGNORE_ALL_LEAKS%s", at); break;
                 case O_CHECK: snprintf(b, sizeof b, " check"); break;
+                case O_DISABLE: snprintf(b, sizeof b, " detector%s->disable()", at); break;
+                case O_ENABLE: snprintf(b, sizeof b, " detector%s->enable()", at); break;
                 default: snprintf(b, sizeof b, " temp%s(%s,%u)", at, KIND_NAME[o.kind], o.size); break;
                 }
                 s += b;
@@ -146,9 +156,13 @@ struct Block {
     int det;                                                      // 0: tracked by the global detector, 1: by the plugin's own detector
     bool freed_outside;                                           // released between tests
     int outside;                                                  // 0: allocated by a test; PH_BEFORE / PH_AFTER: allocated between tests (while run owner_run was current)
+    int amb;                                                      // allocated after a disable() (1) / enable() (2) call on its detector inside the same window (same test, or same stretch of code between two tests): the statement does not say whose block that is
 };
 // per-plugin inputs are indexed by detector (0 global, 1 own); mark = number of failures recorded when the inner of two leak plugins had finished its post action
-struct RunRec { int test, own_fails, plugin_fails, fail_kind, freed_earlier[2], allocs, frees, realloc_failed, mark, outside_allocs, outside_frees; bool ignore[2], expect_set[2], ended; unsigned long expect[2]; unsigned phases; };
+struct RunRec { int test, own_fails, plugin_fails, fail_kind, freed_earlier[2], allocs, frees, realloc_failed, mark, outside_allocs, outside_frees; bool ignore[2], expect_set[2], ended; unsigned long expect[2]; unsigned phases;
+                // detector mode calls per detector: calls made by the test itself, the last one it made (0 disable, 1 enable), whether a failing check of the test came
+                // after its disable(), the last call anybody made before this test's window opened (-1 none), calls made by the code between tests while this run was current
+                int mode_calls[2], mode_last[2], mode_before[2], mode_calls_outside[2], mode_pre_last[2]; bool failed_while_disabled[2]; };   // mode_pre_last: last call made by the code that ran just before this test's window opened
 struct FailRec { int run; char* name; char* nameonly; char* file; size_t line; char* msg; };
 
 static Block B[MAX_BLOCKS]; static int nB;
@@ -158,6 +172,11 @@ static FailRec FR[MAX_FAILS]; static int nFR;
 static uint64_t OPC[O_N], KINDC[K_N];
 static uint64_t g_skipped_ops, g_alloc_null, g_ledger_full, g_misattributed_phase;
 static int g_phase;                                               // phase being executed (0..4)
+// detector mode calls: window of the last call per detector and what it was. A window is a stretch of script code in which no leak plugin action
+// happens: the phases 0..2 of run r (3r+1), or the code after run r-1 plus the code before run r (3r)
+static int MODE_WIN[2], MODE_LAST[2];
+static int current_window() { return g_phase < 3 ? 3 * cur_run + 1 : g_phase == PH_BEFORE ? 3 * cur_run : 3 * cur_run + 3; }
+static int amb_now(int det) { return MODE_WIN[det] == current_window() ? (MODE_LAST[det] == 0 ? 1 : 2) : 0; }
 static size_t RES_fail[4], RES_run[4];
 static MemoryLeakDetector* DET;          // global detector
 static MemoryLeakDetector* LDET;         // the plugin's own detector (modes 1, 2), constructed per program in static storage
@@ -244,7 +263,7 @@ static void op_alloc(RunRec& rr, int test, int s, int kind, unsigned size, int d
     unsigned sz = size; int fm = 0;
     void* p = raw_alloc(det, kind, sz, b.file, b.line, b.fill, fm);
     if (!p) { g_alloc_null++; return; }
-    b.p = p; b.allocnum = num; b.size = sz; b.fillmode = fm; b.owner_run = cur_run; b.freed_run = -1; b.adopted = false; b.det = det; b.outside = g_phase >= 3 ? g_phase : 0; b.freed_outside = false;
+    b.p = p; b.allocnum = num; b.size = sz; b.fillmode = fm; b.owner_run = cur_run; b.freed_run = -1; b.adopted = false; b.det = det; b.outside = g_phase >= 3 ? g_phase : 0; b.freed_outside = false; b.amb = amb_now(det);
     SLOT[s] = nB++; KINDC[kind]++;
     if (b.outside) rr.outside_allocs++; else rr.allocs++;
 }
@@ -276,7 +295,7 @@ static void op_realloc(RunRec& rr, int test, int s, unsigned size, bool fail, in
     PlatformSpecificRealloc = REAL_REALLOC;
     if (!q) { rr.realloc_failed++; return; }                       // the old block is still valid and still outstanding
     memset(q, b.fill, size);
-    b.p = q; b.allocnum = num; b.size = size; b.fillmode = 0; b.owner_run = cur_run; b.freed_run = -1; b.adopted = o.owner_run < cur_run; b.det = o.det; b.outside = 0; b.freed_outside = false;
+    b.p = q; b.allocnum = num; b.size = size; b.fillmode = 0; b.owner_run = cur_run; b.freed_run = -1; b.adopted = o.owner_run < cur_run; b.det = o.det; b.outside = 0; b.freed_outside = false; b.amb = amb_now(o.det);
     o.freed_run = cur_run; rr.frees++;
     if (o.owner_run < cur_run) rr.freed_earlier[o.det]++;
     SLOT[s] = nB++; rr.allocs++; KINDC[K_REALLOC]++;
@@ -298,6 +317,7 @@ static void run_phase(int test, int phase) {
     RunRec& rr = R[cur_run];
     if (rr.test != test) g_misattributed_phase++;
     PlatformSpecificRealloc = REAL_REALLOC;
+    if (phase < 3 && !(rr.phases & 7u)) for (int d = 0; d < 2; d++) rr.mode_before[d] = MODE_LAST[d];      // first phase of the test: its window has just been opened
     rr.phases |= 1u << phase;
     g_phase = phase;
     const TestScript& ts = G.t[test];
@@ -312,11 +332,19 @@ static void run_phase(int test, int phase) {
         case O_REALLOC_FAIL: op_realloc(rr, test, o.slot, o.size, true, det); break;
         case O_TEMP: op_temp(test, o.kind, o.size, det); break;
         case O_CHECK: UtestShell::getCurrent()->assertTrue(true, "CHECK", "true", NULL, FILES[test], 50 + (size_t) i); break;
+        case O_DISABLE: case O_ENABLE: {
+            MemoryLeakDetector* md = detector_of(det);
+            if (!md) { g_skipped_ops++; break; }
+            if (o.op == O_DISABLE) md->disable(); else md->enable();
+            MODE_WIN[det] = current_window(); MODE_LAST[det] = o.op == O_ENABLE;
+            if (phase < 3) { rr.mode_calls[det]++; rr.mode_last[det] = MODE_LAST[det]; } else { rr.mode_calls_outside[det]++; if (phase == PH_BEFORE) rr.mode_pre_last[det] = MODE_LAST[det]; }
+            break; }
         // the macros talk to the first plugin ever constructed (always the one in PLUGIN_STORAGE); a second leak plugin is told directly
         case O_EXPECT: if (plugin_is_first(det)) { EXPECT_N_LEAKS(o.arg); } else PL[det]->expectLeaksInTest(o.arg); rr.expect[det] = o.arg; rr.expect_set[det] = true; break;
         case O_IGNORE: if (plugin_is_first(det)) { IGNORE_ALL_LEAKS_IN_TEST(); } else PL[det]->ignoreAllLeaksInTest(); rr.ignore[det] = true; break;
         case O_FAIL:
             rr.own_fails++; rr.fail_kind = o.kind;
+            for (int d = 0; d < 2; d++) if (rr.mode_calls[d] && rr.mode_last[d] == 0) rr.failed_while_disabled[d] = true;
             switch (o.kind) {
             case F_FAIL: UtestShell::getCurrent()->fail(OWN_TEXT, FILES[test], 60 + (size_t) i); break;
             case F_FAIL_C: FAIL_TEXT_C_LOCATION(OWN_TEXT, FILES[test], 60 + (size_t) i); break;
@@ -401,6 +429,7 @@ public:
         cur_run = nR++;
         RunRec& rr = R[cur_run]; memset(&rr, 0, sizeof rr);
         rr.test = -1; rr.mark = -1;
+        for (int d = 0; d < 2; d++) rr.mode_last[d] = rr.mode_before[d] = rr.mode_pre_last[d] = -1;
         for (int i = 0; i < G.ntests; i++) if ((const UtestShell*) SH[i] == &t) rr.test = i;
     }
     void printCurrentTestEnded(const TestResult&) override { if (cur_run >= 0) R[cur_run].ended = true; }
@@ -585,6 +614,7 @@ static void run_and_judge(vf::Ctx& c) {
     for (int i = 0; i < MAX_SLOTS; i++) SLOT[i] = -1;
     memset(OPC, 0, sizeof OPC); memset(KINDC, 0, sizeof KINDC);
     g_skipped_ops = g_alloc_null = g_ledger_full = g_misattributed_phase = 0;
+    for (int d = 0; d < 2; d++) { MODE_WIN[d] = -1000; MODE_LAST[d] = -1; }
     int rep = G.repeat < 1 ? 1 : G.repeat > 3 ? 3 : G.repeat;
 
     DET = MemoryLeakWarningPlugin::getGlobalDetector();
@@ -695,19 +725,40 @@ static void run_and_judge(vf::Ctx& c) {
             const std::string sfx = SFX[d];
             const bool second_of_two = mode == 2 && step == 1;
             std::set<int> E; size_t earlier_live = 0, between_live = 0;      // earlier_live: blocks of this detector from before this test's window that are still live at its end
+            size_t amb_live = 0, amb_live_disabled = 0;                        // own blocks allocated after the test called disable() / enable() on this detector and still outstanding
             for (int i = 0; i < nB; i++) if (B[i].det == d) {
                 bool live_at_end = B[i].freed_run == -1 || B[i].freed_run > r;
-                if (B[i].owner_run == r && !B[i].outside) { if (live_at_end) E.insert(i); }
+                if (B[i].owner_run == r && !B[i].outside) { if (B[i].amb) { c.count(B[i].amb == 1 ? "blocks_allocated_in_a_test_after_its_disable_call" : "blocks_allocated_in_a_test_after_its_enable_call"); if (live_at_end) { amb_live++; if (B[i].amb == 1) amb_live_disabled++; } } else if (live_at_end) E.insert(i); }
                 else if (live_at_end && (B[i].owner_run < r || (B[i].owner_run == r && B[i].outside == PH_BEFORE))) { earlier_live++; if (B[i].outside) between_live++; }
             }
             unsigned long expected = rr.expect_set[d] ? rr.expect[d] : 0;
+            const std::vector<const FailRec*>& lk = leak[d];
+            // detector mode calls: evidence, and the one situation that is left unjudged
+            if (rr.mode_calls[d]) {
+                c.count("verdicts_of_tests_calling_detector_disable_or_enable");
+                if (rr.mode_last[d] == 0) { c.count("tests_leaving_the_detector_disabled"); if (rr.failed_while_disabled[d]) c.count("tests_leaving_the_detector_disabled_by_a_failing_check_before_enable"); }
+                else if (rr.failed_while_disabled[d]) c.count("tests_failing_while_disabled_but_enabling_later");
+                else c.count("tests_with_balanced_or_enable_last_mode_calls");
+            }
+            if (rr.mode_calls_outside[d]) c.count("detector_mode_calls_between_tests", (uint64_t) rr.mode_calls_outside[d]);
+            if (amb_live && earlier_failures == 0 && !rr.ignore[d]) {
+                // the count the verdict depends on includes blocks the statement does not clearly assign: no demand on presence or content of a
+                // leak failure (more than one is wrong under every reading)
+                c.count("verdicts_unjudged_block_allocated_after_own_mode_call_outstanding");
+                if (amb_live_disabled) c.count("verdicts_unjudged_block_allocated_while_disabled_outstanding");
+                if (lk.size() > 1) c.violation(std::string("verdict:leak-failure-repeated") + SFX[d], where0 + ": " + std::to_string(lk.size()) + " leak failures for one test");
+                if (!lk.empty()) c.count("leak_failures_observed_in_unjudged_verdicts");
+                earlier_failures += lk.size();
+                continue;
+            }
             bool want = earlier_failures == 0 && !rr.ignore[d] && E.size() != expected;
             bool suppressed_by_inner = second_of_two && rr.own_fails == 0 && earlier_failures != 0 && !rr.ignore[d] && E.size() != expected;
-            const std::vector<const FailRec*>& lk = leak[d];
             std::string where = where0 + (mode == 0 ? "" : d ? " [plugin with its own detector" : " [plugin on the global detector") + (mode == 2 ? (second_of_two ? ", outer of two leak plugins" : ", inner of two leak plugins") : "") + (mode == 0 ? "" : "]") +
                                 (second_of_two ? ", leak failures of the inner plugin " + std::to_string(earlier_failures - (size_t) rr.own_fails) : std::string()) +
                                 ", ignore " + std::to_string(rr.ignore[d]) + ", expected " + (rr.expect_set[d] ? std::to_string(rr.expect[d]) : std::string("default 0")) +
                                 ", outstanding own blocks " + std::to_string(E.size()) + ", released blocks of earlier tests " + std::to_string(rr.freed_earlier[d]) + ", blocks from before this test still live " + std::to_string(earlier_live) + (between_live ? " (" + std::to_string(between_live) + " of them allocated between tests)" : std::string());
+            if (rr.mode_before[d] >= 0) where += std::string(", last detector mode call before this test: ") + (rr.mode_before[d] ? "enable()" : "disable()");
+            if (rr.mode_calls[d]) where += ", the test itself made " + std::to_string(rr.mode_calls[d]) + " disable()/enable() call(s), the last one " + (rr.mode_last[d] ? "enable()" : "disable()");
             std::string decl = rr.expect_set[d] ? "declared" : "default";
             // would the observed verdict be right if a realloc'ed block still belonged to the test that first allocated it? (diagnostic suffix only)
             size_t adopted = 0; for (int bi : E) if (B[bi].adopted) adopted++;
@@ -723,7 +774,7 @@ static void run_and_judge(vf::Ctx& c) {
             // verdict
             if (lk.size() > 1) c.violation("verdict:leak-failure-repeated" + sfx, where + ": " + std::to_string(lk.size()) + " leak failures for one test");
             if (want && lk.empty()) {
-                std::string k = "verdict:leak-failure-missing:" + std::string(E.size() > expected ? "more-than-" : "fewer-than-") + decl + (rr.freed_earlier[d] ? ":released-earlier-tests-blocks" : "") + alt + (dis_ahead ? ":leak-plugin-behind-a-disabled-plugin" : "") + sfx;
+                std::string k = "verdict:leak-failure-missing:" + std::string(E.size() > expected ? "more-than-" : "fewer-than-") + decl + (rr.freed_earlier[d] ? ":released-earlier-tests-blocks" : "") + alt + (dis_ahead ? ":leak-plugin-behind-a-disabled-plugin" : "") + (rr.mode_before[d] == 0 ? ":detector-disable-called-before-this-test" : "") + sfx;
                 c.violation(k, where);
             }
             if (!want && !lk.empty()) {
@@ -746,6 +797,15 @@ static void run_and_judge(vf::Ctx& c) {
             else if (earlier_failures) c.count(E.empty() ? "verdict_failed_test_clean" : "verdict_failed_test_with_outstanding_blocks");
             else if (rr.ignore[d]) c.count(E.empty() ? "verdict_ignore_clean" : "verdict_ignore_with_outstanding_blocks");
             else c.count(expected ? "verdict_pass_expected_count_met" : "verdict_pass_clean");
+            if (rr.mode_before[d] == 0) {
+                // the situation in which "the window opens at the pre action whatever happened before" is put to the test
+                const char* what = want ? (E.size() > expected ? "leak_more" : "leak_fewer") : earlier_failures ? "failed_test" : rr.ignore[d] ? "ignore" : "pass";
+                c.count(std::string("verdict_after_detector_disable_call_") + what);
+                if (want && !E.empty() && !lk.empty()) c.count("leak_failures_observed_after_detector_disable_call");
+                if (r > 0 && R[r - 1].mode_calls[d] && R[r - 1].mode_last[d] == 0 && rr.mode_pre_last[d] < 0) c.count(std::string("verdict_right_after_a_test_that_left_the_detector_disabled_") + what);
+                if (rr.mode_pre_last[d] == 0) c.count(std::string("verdict_after_disable_call_in_the_code_just_before_the_test_") + what);
+            }
+            if (rr.mode_calls[d]) { c.count("verdicts_judged_in_tests_calling_detector_disable_or_enable"); if (want && !E.empty()) c.count("leak_verdicts_for_blocks_allocated_before_the_tests_own_mode_call"); }
             if (rr.freed_earlier[d]) c.count("tests_releasing_earlier_tests_blocks");
             if (rr.freed_earlier[d] && !E.empty()) { c.count("tests_releasing_earlier_and_leaking_own"); nontrivial = true; }
             if (rr.freed_earlier[d] && (size_t) rr.freed_earlier[d] == E.size()) c.count("tests_release_exactly_offsets_leak");
@@ -793,8 +853,11 @@ static void run_and_judge(vf::Ctx& c) {
     // final report, per plugin: the blocks of its detector that are still live
     for (int d = 0; d < 2; d++) if (has[d]) {
         const std::string pfx = "final-report:", sfx = SFX[d];
-        std::set<int> L;
-        for (int i = 0; i < nB; i++) if (B[i].det == d && B[i].freed_run == -1) L.insert(i);
+        std::set<int> L; size_t amb_final = 0;
+        for (int i = 0; i < nB; i++) if (B[i].det == d && B[i].freed_run == -1) { L.insert(i); if (B[i].amb) amb_final++; }
+        bool any_mode = false; for (int r = 0; r < nR; r++) any_mode |= R[r].mode_calls[d] || R[r].mode_calls_outside[d];
+        if (amb_final) { c.count("final_reports_unjudged_block_allocated_after_mode_call_live"); continue; }
+        if (any_mode) c.count("final_reports_judged_in_programs_with_detector_mode_calls");
         if (L.empty()) {
             if (final_text[d][0]) c.violation(pfx + "not-empty-though-nothing-outstanding" + sfx, std::string(final_text[d]).substr(0, 300));
             c.count("final_reports_empty");
@@ -827,6 +890,7 @@ static void run_and_judge(vf::Ctx& c) {
     if (g_alloc_null) c.violation("harness:allocation-returned-null", std::to_string(g_alloc_null) + " allocations returned NULL");
     if (g_ledger_full) c.count("ledger_full", g_ledger_full);
     if (G.threadsafe) c.count("programs_threadsafe_overloads");
+    { bool any_mode = false; for (int r = 0; r < nR; r++) for (int d = 0; d < 2; d++) any_mode |= R[r].mode_calls[d] || R[r].mode_calls_outside[d]; if (any_mode) c.count("programs_with_detector_mode_calls"); }
     if (rep > 1) c.count("programs_repeated");
     if (nontrivial) { char hb[40]; snprintf(hb, sizeof hb, "%016llx", (unsigned long long) program_hash(G)); c.nontrivial(hb); }
 
@@ -953,7 +1017,7 @@ static void gen_test(vf::Rng& r, const Prof& pf, int profile, int t, GenState& g
     if (r.chance(profile == 3 ? 12 : 3)) G.t[t].plugfail = (uint8_t) (1 + r.below(2));
 }
 
-static void gen_random_program(vf::Ctx& c, int profile, int max_tests, int detmode = 0) {
+static void gen_random_program(vf::Ctx& c, int profile, int max_tests, int detmode = 0, int mode_pct = 15) {
     vf::Rng& r = c.rng;
     int nt;
     switch (r.below(4)) { case 0: nt = r.range(1, 3); break; case 1: nt = r.range(2, 6); break; default: nt = r.range(1, max_tests); break; }
@@ -985,6 +1049,30 @@ static void gen_random_program(vf::Ctx& c, int profile, int max_tests, int detmo
     if (r.chance(30)) {
         G.nby = r.chance(50) ? 1 : r.chance(60) ? 2 : 3;
         for (int i = 0; i < G.nby; i++) { G.by[i].pos = (uint8_t) r.below(N_BYPOS); G.by[i].enabled = (uint8_t) (r.chance(55) ? 0 : 1); }
+    }
+    // detector mode calls (drawn after everything else again): 1..3 events, each a disable()/enable() shape put into one test's scripts or
+    // into the code between tests. Failing statements that the scripts already contain land between a disable() and its enable() by themselves.
+    if (r.chance(mode_pct)) {
+        int ne = r.range(1, 3);
+        for (int e = 0; e < ne; e++) {
+            int t = (int) r.below((uint64_t) nt); int d = detmode == 2 ? (int) r.below(2) : 0;
+            const OpRec dis = mk(O_DISABLE, 0, 0, 0, 0, d), en = mk(O_ENABLE, 0, 0, 0, 0, d);
+            switch (r.below(9)) {
+            case 0: case 1: {                                    // bracket inside one phase, case 1: with a failing check of its own in between
+                bool with_fail = r.below(2) == 1; int ph = (int) r.below(3); int n = G.t[t].nops[ph]; int i = r.range(0, n); int j = r.range(i, n);
+                insert_at(t, ph, j, en); if (with_fail) insert_at(t, ph, j, mk(O_FAIL, 0, (int) r.below(F_N))); insert_at(t, ph, i, dis); break; }
+            case 2: {                                            // bracket across phases
+                int a = (int) r.below(2); int b = a + 1 + (int) r.below((uint64_t) (2 - a));
+                insert_at(t, a, r.range(0, G.t[t].nops[a]), dis); insert_at(t, b, r.range(0, G.t[t].nops[b]), en); break; }
+            case 3: case 4: { int ph = (int) r.below(3); insert_at(t, ph, r.range(0, G.t[t].nops[ph]), dis); break; }      // disable() without enable()
+            case 5: { int ph = (int) r.below(3); insert_at(t, ph, r.range(0, G.t[t].nops[ph]), en); break; }               // enable() alone
+            case 6: case 7: {                                    // in the code between tests
+                int ph = r.chance(50) ? PH_BEFORE : PH_AFTER; int n = G.t[t].nops[ph]; int i = r.range(0, n);
+                if (r.chance(35)) insert_at(t, ph, r.range(i, n), en);
+                insert_at(t, ph, i, dis); break; }
+            default: insert_at(t, 0, 0, dis); if (r.chance(50)) push(t, 2, en); break;                                   // the whole test, from the first statement of setup
+            }
+        }
     }
 }
 
@@ -1087,6 +1175,73 @@ static void sec_bystander_matrix(vf::Ctx& c) {
     run_and_judge(c);
 }
 
+// the same program space with detector mode calls in every program
+static void sec_mode_calls(vf::Ctx& c) {
+    int profile = c.rng.chance(40) ? 0 : 1 + (int) c.rng.below(4);
+    int detmode = c.rng.chance(50) ? 0 : 1 + (int) c.rng.below(2);
+    gen_random_program(c, profile, c.thorough ? 24 : 10, detmode, 100);
+    run_and_judge(c);
+}
+
+// detector mode calls, enumerated: a predecessor that leaks, a test (or the code after it / before the next one) that calls disable() / enable()
+// in one of twelve shapes, a SUBJECT that leaks 0..2 blocks and must get its usual verdict, a clean successor, a sweeper.
+//   shape 0 none (control)           1 disable; enable in the body         2 disable; failing check; enable (never reached)
+//         3 disable alone (body)     4 disable in setup, enable in teardown  5 the same with a failing check in the body (teardown still enables)
+//         6 enable alone             7 disable as the last statement of teardown   8 disable in the code after the test
+//         9 disable in the code just before the subject    10 disable; enable there    11 enable; disable in the body
+//   own blocks of the mode caller: 0 none, 1 one allocated before every mode call and leaked (judged), 2 one allocated right after the first mode
+//   call and left outstanding (ambiguous: that verdict is not judged), 3 one allocated there and released in the caller's teardown
+enum { DM_CFG = 6, DM_SHAPE = 12, DM_A = 4, DM_L = 3, DM_EXP = 2, DM_FE = 2, DM_FAIL = 2 };
+static const uint64_t DM_TOTAL = (uint64_t) DM_CFG * DM_SHAPE * DM_A * DM_L * DM_EXP * DM_FE * DM_FAIL;
+static void sec_mode_matrix(vf::Ctx& c) {
+    uint64_t i = c.idx;
+    int L = (int) (i % DM_L); i /= DM_L; int ex = (int) (i % DM_EXP); i /= DM_EXP; int fe = (int) (i % DM_FE); i /= DM_FE; int fl = (int) (i % DM_FAIL); i /= DM_FAIL;
+    int a = (int) (i % DM_A); i /= DM_A; int shape = (int) (i % DM_SHAPE); i /= DM_SHAPE; int cfg = (int) (i % DM_CFG);
+    clear_program(5); G.profile = 14; G.nslots = 12;
+    G.detmode = cfg >= 2 ? 2 : cfg; G.local_outer = cfg >= 2 && ((cfg - 2) & 1);
+    const int md = cfg >= 2 ? (cfg - 2) >> 1 : 0;                                                             // the detector whose mode is changed (with one leak plugin: its detector)
+    const int ndet = G.detmode == 2 ? 2 : 1;
+    static const int kinds[2] = { K_NEWA_LOC, K_MALLOC };
+    const int T1 = 1, T2 = 2;
+    for (int d = 0; d < ndet; d++) push(0, 1, mk(O_ALLOC, d, kinds[d], 9 + 8 * (unsigned) d, 0, d));          // predecessor leaks one block per leak plugin
+    bool placed = false, placed_outside = false;
+    auto later_block = [&](int t, int ph) {
+        if (a < 2 || placed) return;
+        placed = true; placed_outside = ph >= 3;
+        int slot = ph >= 3 ? FIRST_OUTSIDE_SLOT : 3;
+        push(t, ph, mk(O_ALLOC, slot, kinds[md], 21, 0, md));
+        if (a == 3 && ph >= 3) push(t, ph, mk(O_FREE, slot));
+    };
+    auto dis = [&](int t, int ph) { push(t, ph, mk(O_DISABLE, 0, 0, 0, 0, md)); later_block(t, ph); };
+    auto en = [&](int t, int ph) { push(t, ph, mk(O_ENABLE, 0, 0, 0, 0, md)); };
+    if (a == 1) push(T1, 0, mk(O_ALLOC, 2, kinds[md], 13, 0, md));
+    switch (shape) {
+    case 0: later_block(T1, 1); break;
+    case 1: dis(T1, 1); en(T1, 1); break;
+    case 2: dis(T1, 1); push(T1, 1, mk(O_FAIL, 0, F_CHECK)); en(T1, 1); break;
+    case 3: dis(T1, 1); break;
+    case 4: dis(T1, 0); en(T1, 2); break;
+    case 5: dis(T1, 0); push(T1, 1, mk(O_FAIL, 0, F_FAIL)); en(T1, 2); break;
+    case 6: en(T1, 1); later_block(T1, 1); break;
+    case 7: dis(T1, 2); break;
+    case 8: dis(T1, PH_AFTER); break;
+    case 9: dis(T2, PH_BEFORE); break;
+    case 10: dis(T2, PH_BEFORE); en(T2, PH_BEFORE); break;
+    default: en(T1, 1); dis(T1, 1); break;
+    }
+    if (a == 3 && placed && !placed_outside) push(T1, 2, mk(O_FREE, 3));
+    for (int d = 0; d < ndet; d++) {                                                                           // the subject
+        if (ex) push(T2, 0, mk(O_EXPECT, 0, 0, 0, 1, d));
+        for (int k = 0; k < L; k++) push(T2, k == 0 ? 1 : 0, mk(O_ALLOC, 4 + 2 * d + k, kinds[(d + k) % 2], 5 + 6 * (unsigned) k, 0, d));
+    }
+    if (fe) push(T2, 2, mk(O_FREE, md < ndet ? md : 0));                                                       // releases the predecessor's block on the detector in question
+    if (fl) push(T2, 1, mk(O_FAIL, 0, F_CHECK));
+    push(3, 1, mk(O_ALLOC, 8, K_NEW, 12, 0, md)); push(3, 2, mk(O_FREE, 8));                                   // clean successor
+    if (a == 2 && placed_outside) push(3, PH_AFTER, mk(O_FREE, FIRST_OUTSIDE_SLOT));
+    for (int s = 0; s < 8; s++) push(4, 1, mk(O_FREE, s));                                                    // sweeper
+    run_and_judge(c);
+}
+
 // many leaks in one test (reports near and beyond the detector's text capacity)
 static void sec_bulk(vf::Ctx& c) {
     vf::Rng& r = c.rng;
@@ -1132,6 +1287,8 @@ int main(int argc, char** argv) {
         { "two_leak_plugins_programs", 12000, 150000, sec_two_plugins, false },
         { "two_leak_plugins_matrix", TP_TOTAL, TP_TOTAL, sec_two_plugin_matrix, true },
         { "bystander_plugins_matrix", BC_TOTAL, BC_TOTAL, sec_bystander_matrix, true },
+        { "detector_mode_calls_matrix", DM_TOTAL, DM_TOTAL, sec_mode_matrix, true },
+        { "detector_mode_calls_programs", 8000, 100000, sec_mode_calls, false },
     };
     return vf::harness_main(argc, argv, S, init);
 }
